@@ -18,12 +18,21 @@ enum V {
     Map(Vec<(V, V)>), Struct(Vec<V>), StructVariant(Vec<V>),
     /// a value whose Serialize impl consults `is_human_readable()` (std::net addresses, uuid, chrono do): a string if so, bytes if not
     HumanReadable(u8),
+    /// a value serialized through `Serializer::collect_str` whose Display writes two fragments and IGNORES an error of the first
+    /// (harmless against a String, which is where serde's provided collect_str formats it): the output must not depend on where
+    /// in the free space a fragment happens to end
+    Disp(String, String),
+}
+struct Sloppy<'a>(&'a str, &'a str);
+impl std::fmt::Display for Sloppy<'_> {
+    fn fmt(&self, f: &mut std::fmt::Formatter<'_>) -> std::fmt::Result { let _ = f.write_str(self.0); f.write_str(self.1) }
 }
 const FIELDS: [&str; 4] = ["a", "b\"q", "c\u{7}", "d\\"];
 struct W<'a>(&'a V);
 impl Serialize for W<'_> {
     fn serialize<S: Serializer>(&self, s: S) -> Result<S::Ok, S::Error> {
         match self.0 {
+            V::Disp(a, b) => s.collect_str(&Sloppy(a, b)),
             V::HumanReadable(x) => if s.is_human_readable() { s.serialize_str(&format!("10.0.0.{x}")) } else { s.serialize_bytes(&[10, 0, 0, *x]) },
             V::Bool(v) => s.serialize_bool(*v), V::I8(v) => s.serialize_i8(*v), V::I16(v) => s.serialize_i16(*v),
             V::I32(v) => s.serialize_i32(*v), V::I64(v) => s.serialize_i64(*v), V::I128(v) => s.serialize_i128(*v),
@@ -68,7 +77,7 @@ fn gen(r: &mut Rng, depth: usize) -> V {
         11 => V::F32(match r.below(4) { 0 => f32::NAN.to_bits(), 1 => f32::INFINITY.to_bits(), 2 => f32::NEG_INFINITY.to_bits(), _ => r.next() as u32 }),
         12 => V::F64(match r.below(4) { 0 => f64::NAN.to_bits(), 1 => f64::INFINITY.to_bits(), 2 => (-0.0f64).to_bits(), _ => r.next() }),
         13 => V::Char(gen_str(r).chars().next().unwrap_or('\u{1}')), 14 => V::Str(gen_str(r)), 15 => V::Bytes((0..r.below(5)).map(|_| r.next() as u8).collect()),
-        16 => V::Unit, 17 => V::UnitStruct, 18 => V::UnitVariant, 19 => V::None, 20 => if r.below(2) == 0 { V::Str(gen_str(r)) } else { V::HumanReadable(r.next() as u8) },
+        16 => V::Unit, 17 => V::UnitStruct, 18 => V::UnitVariant, 19 => V::None, 20 => match r.below(3) { 0 => V::Str(gen_str(r)), 1 => V::HumanReadable(r.next() as u8), _ => V::Disp(gen_str(r) + "ab", if r.below(2) == 0 { String::new() } else { gen_str(r) }) },
         21 => V::Some(Box::new(gen(r, depth - 1))), 22 => V::NewtypeStruct(Box::new(gen(r, depth - 1))), 23 => V::NewtypeVariant(Box::new(gen(r, depth - 1))),
         24 => V::Seq(kids(r)), 25 => V::Tuple(kids(r)), 26 => V::TupleStruct(kids(r)), 27 => V::TupleVariant(kids(r)),
         28 => { let n = r.below(4); V::Map((0..n).map(|_| (gen(r, 0), gen(r, depth - 1))).collect()) }
@@ -81,7 +90,7 @@ fn gen(r: &mut Rng, depth: usize) -> V {
 /// property allows that even where serde_json is more lenient, e.g. bool or float keys)
 fn key_ok(k: &V) -> bool {
     match k {
-        V::Str(_) | V::HumanReadable(_) | V::Char(_) | V::UnitVariant | V::I8(_) | V::I16(_) | V::I32(_) | V::I64(_) | V::I128(_) | V::U8(_) | V::U16(_) | V::U32(_) | V::U64(_) | V::U128(_) => true,
+        V::Str(_) | V::HumanReadable(_) | V::Disp(_, _) | V::Char(_) | V::UnitVariant | V::I8(_) | V::I16(_) | V::I32(_) | V::I64(_) | V::I128(_) | V::U8(_) | V::U16(_) | V::U32(_) | V::U64(_) | V::U128(_) => true,
         V::NewtypeStruct(x) => key_ok(x),
         _ => false,
     }
